@@ -1,5 +1,5 @@
 (* Executable model of the listener demultiplexer of sess.go (Listener.packetInput,
-   closeSession, AcceptKCP, UDPSession.Close of an accepted session) and of the source-address
+   removeSession, AcceptKCP, UDPSession.Close of an accepted session in its two steps) and of the source-address
    filter of a dialled session's read loop (readloop.go / readloop_linux.go).
 
    No proofs in this file.
@@ -96,17 +96,19 @@ Section Listener.
   Context (gate_ok : bytes -> option bytes).
 
   (* A session object with its identity (the order of creation on this listener; in Go the
-     identity is the pointer). *)
-  Record entry := mkE { e_id : Z; e_sess : sess }.
+     identity is the pointer) and whether its `die` channel is closed (Close has begun). *)
+  Record entry := mkE { e_id : Z; e_dead : bool; e_sess : sess }.
 
   Record listener := mkL {
     sessions : list (addr * entry);   (* l.sessions *)
     accepts  : list (addr * Z);       (* content of l.chAccepts, oldest first: (remote, id) *)
     next_id  : Z;                     (* sessions created so far *)
-    closed   : bool                   (* l.die closed *)
+    closed   : bool;                  (* l.die closed *)
+    pending  : list (Z * addr)        (* Close calls of the application that have closed `die`
+                                         and have not yet reached removeSession: (id, remote) *)
   }.
 
-  Definition l_empty : listener := mkL [] [] 0 false.
+  Definition l_empty : listener := mkL [] [] 0 false [].
 
   (* len(l.chAccepts) >= cap(l.chAccepts) *)
   Definition backlog_full (l : listener) : bool :=
@@ -114,22 +116,29 @@ Section Listener.
 
   (* s.kcpInput(data) on the session stored under a *)
   Definition feed (l : listener) (a : addr) (e : entry) (data : bytes) : listener :=
-    mkL (replace_key addr_eqb a (mkE (e_id e) (sess_input (e_sess e) data)) (sessions l))
-        (accepts l) (next_id l) (closed l).
+    mkL (replace_key addr_eqb a (mkE (e_id e) (e_dead e) (sess_input (e_sess e) data)) (sessions l))
+        (accepts l) (next_id l) (closed l) (pending l).
 
-  (* s.Close() of the session stored under a, called from packetInput: the session leaves the
-     table (closeSession deletes the key). *)
+  (* the table entry of a leaves the table *)
   Definition close_at (l : listener) (a : addr) : listener :=
-    mkL (remove_key addr_eqb a (sessions l)) (accepts l) (next_id l) (closed l).
+    mkL (remove_key addr_eqb a (sessions l)) (accepts l) (next_id l) (closed l) (pending l).
+
+  (* s.Close() called from packetInput on the session e stored under a.  If the application's
+     Close of that session has already closed `die` (dieOnce), this call returns ErrClosedPipe
+     and does nothing - the entry stays until that other Close reaches removeSession.
+     Otherwise the whole Close runs here: die, flush, removeSession(s) - s is the entry of a,
+     so it is deleted. *)
+  Definition reset_close (l : listener) (a : addr) (e : entry) : listener :=
+    if e_dead e then l else close_at l a.
 
   (* sess.go 1260-1272: backlog test, newUDPSession, kcpInput, table insert, queue append *)
   Definition create (l : listener) (conv : Z) (data : bytes) (a : addr) : listener :=
     if backlog_full l then l
     else
       let s := sess_input (sess_new conv a) data in
-      mkL (set_key addr_eqb a (mkE (next_id l) s) (sessions l))
+      mkL (set_key addr_eqb a (mkE (next_id l) false s) (sessions l))
           (accepts l ++ [(a, next_id l)])
-          (next_id l + 1) (closed l).
+          (next_id l + 1) (closed l) (pending l).
 
   (* Listener.packetInput(data, addr) *)
   Definition l_packet_input (l : listener) (raw : bytes) (a : addr) : listener :=
@@ -151,7 +160,7 @@ Section Listener.
             | Some e =>
                 if conv =? sess_conv (e_sess e) then feed l a e data
                 else if negb (sn =? 0) then l     (* other conversation, not its first packet *)
-                else create (close_at l a) conv data a   (* reset: Close, then a fresh session *)
+                else create (reset_close l a e) conv data a  (* reset: Close, then a fresh session *)
             | None => create l conv data a
             end
         end
@@ -161,39 +170,84 @@ Section Listener.
   Definition l_accept (l : listener) : option (addr * Z) * listener :=
     match accepts l with
     | [] => (None, l)
-    | x :: r => (Some x, mkL (sessions l) r (next_id l) (closed l))
+    | x :: r => (Some x, mkL (sessions l) r (next_id l) (closed l) (pending l))
     end.
 
-  (* UDPSession.Close of the session with identity id by the application (once per session:
-     later calls return ErrClosedPipe without touching the listener).  Close and packetInput
-     are taken as atomic with respect to each other here; see CloseRace.v for the split. *)
-  Fixpoint key_of_id (id : Z) (t : list (addr * entry)) : option addr :=
+  (* UDPSession.Close of the session with identity id by the application, in its two steps.
+
+     Step 1 (dieOnce.Do): `die` is closed.  Only the first Close of a session gets further;
+     a session that is not in the table any more has been closed before (it left the table
+     through a Close), so there is nothing to do for it either. *)
+  Fixpoint key_of_id (id : Z) (t : list (addr * entry)) : option (addr * entry) :=
     match t with
     | [] => None
-    | (a, e) :: r => if e_id e =? id then Some a else key_of_id id r
+    | (a, e) :: r => if e_id e =? id then Some (a, e) else key_of_id id r
     end.
 
-  Definition l_close_session (l : listener) (id : Z) : listener :=
+  Definition l_close_begin (l : listener) (id : Z) : listener :=
     match key_of_id id (sessions l) with
-    | Some a => close_at l a
+    | Some (a, e) =>
+        if e_dead e then l
+        else mkL (replace_key addr_eqb a (mkE (e_id e) true (e_sess e)) (sessions l))
+                 (accepts l) (next_id l) (closed l) ((id, a) :: pending l)
     | None => l
     end.
 
+  Fixpoint pending_addr (id : Z) (p : list (Z * addr)) : option addr :=
+    match p with
+    | [] => None
+    | (i, a) :: r => if i =? id then Some a else pending_addr id r
+    end.
+
+  Definition pending_remove (id : Z) (p : list (Z * addr)) : list (Z * addr) :=
+    filter (fun x => negb (fst x =? id)) p.
+
+  (* Step 2, after the flush under s.mu: Listener.removeSession(s) - the entry under
+     s.remote.String() is deleted only if it still is s. *)
+  Definition l_close_end (l : listener) (id : Z) : listener :=
+    match pending_addr id (pending l) with
+    | None => l
+    | Some a =>
+        let t := match lookup addr_eqb a (sessions l) with
+                 | Some e => if e_id e =? id then remove_key addr_eqb a (sessions l) else sessions l
+                 | None => sessions l
+                 end in
+        mkL t (accepts l) (next_id l) (closed l) (pending_remove id (pending l))
+    end.
+
+  (* What step 2 did before the repair "a closing session no longer evicts the session that
+     replaced it on the listener": Listener.closeSession(remote) deleted whatever was stored
+     under the address.  Kept only for the regression example in C11.v. *)
+  Definition close_by_addr_legacy (l : listener) (id : Z) : listener :=
+    match pending_addr id (pending l) with
+    | None => l
+    | Some a => mkL (remove_key addr_eqb a (sessions l)) (accepts l) (next_id l) (closed l)
+                    (pending_remove id (pending l))
+    end.
+
+  (* a Close that is not interleaved with anything *)
+  Definition l_close_session (l : listener) (id : Z) : listener :=
+    l_close_end (l_close_begin l id) id.
+
   (* Listener.Close: packetInput does not look at l.die (finding F14 is about that). *)
   Definition l_close (l : listener) : listener :=
-    mkL (sessions l) (accepts l) (next_id l) true.
+    mkL (sessions l) (accepts l) (next_id l) true (pending l).
 
+  (* The atomic sections of the code, in any interleaving: a datagram processed by
+     packetInput, an Accept, the two steps of an application's Close, Listener.Close. *)
   Inductive event :=
   | EvPacket (raw : bytes) (a : addr)
   | EvAccept
-  | EvClose (id : Z)
+  | EvCloseBegin (id : Z)
+  | EvCloseEnd (id : Z)
   | EvListenerClose.
 
   Definition step (l : listener) (ev : event) : listener :=
     match ev with
     | EvPacket raw a => l_packet_input l raw a
     | EvAccept => snd (l_accept l)
-    | EvClose id => l_close_session l id
+    | EvCloseBegin id => l_close_begin l id
+    | EvCloseEnd id => l_close_end l id
     | EvListenerClose => l_close l
     end.
 
@@ -291,16 +345,19 @@ End Listener.
 
 Arguments mkE {sess}.
 Arguments e_id {sess}.
+Arguments e_dead {sess}.
 Arguments e_sess {sess}.
 Arguments mkL {addr sess}.
 Arguments sessions {addr sess}.
 Arguments accepts {addr sess}.
 Arguments next_id {addr sess}.
 Arguments closed {addr sess}.
+Arguments pending {addr sess}.
 Arguments l_empty {addr sess}.
 Arguments EvPacket {addr}.
 Arguments EvAccept {addr}.
-Arguments EvClose {addr}.
+Arguments EvCloseBegin {addr}.
+Arguments EvCloseEnd {addr}.
 Arguments EvListenerClose {addr}.
 
 (* ------------------------------------------------------------------------------------ *)
